@@ -624,6 +624,31 @@ pub fn run(session: &Session) -> i32 {
             }
         }
     }
+    // struct types over the same field names with different field types (two and three fields): their
+    // meet, their join, and what the checker derives from a union of functions that take them
+    {
+        let xs = ["int", "int|float", "int|string", "float", "[int]"];
+        let ys = ["int", "bool", "int|bool"];
+        for x1 in xs {
+            for x2 in xs {
+                for y1 in ys {
+                    for y2 in ys {
+                        if x1 == x2 && y1 == y2 {
+                            continue;
+                        }
+                        let (ta, tb) = (format!("struct{{a: {x1}, b: {y1}}}"), format!("struct{{a: {x2}, b: {y2}}}"));
+                        cases.push(json!({"kind": "types", "a": ta, "b": tb, "reps": reps}));
+                        cases.push(json!({"kind": "queries", "u": format!("({ta})->int|({tb})->int"), "reps": reps}));
+                        if y1 == "int" {
+                            let (ta, tb) = (format!("struct{{a: {x1}, b: {y2}, c: {x2}}}"), format!("struct{{a: {x2}, b: {y2}, c: {x1}}}"));
+                            cases.push(json!({"kind": "types", "a": ta, "b": tb, "reps": reps}));
+                            cases.push(json!({"kind": "queries", "u": format!("({ta}, int)->int|({tb}, int)->int|(struct{{a: int, b: int, c: int}}, int)->int"), "reps": reps}));
+                        }
+                    }
+                }
+            }
+        }
+    }
     session.set_extra("enumerated_cases", json!(cases.len()));
     session.set_extra("repetitions_per_case", json!(reps));
     if !session.stopped() {
